@@ -221,4 +221,112 @@ theorem store_failure_recovers {C : Type} (e : Engine C) (t : Txn C) (ht : e.txn
   | failWritten => simp [step, run, ht, hdirty]
   | panic => simp [step, run, ht, hdirty]
 
+/-! ### Non-vacuity (concrete bytes) -/
+
+/-- `path` = name 0 durably holds [1,2,3] in inode 0; a stale `.tmp` = name 1 ↦ inode 1 with
+    half-synced garbage; allocation counter 2 -/
+def exS : State :=
+  { ino := fun i => if i = 0 then ⟨[1, 2, 3], []⟩ else if i = 1 then ⟨[9], [9, 9]⟩ else ⟨[], []⟩,
+    next := 2,
+    vdir := fun n => if n = 0 then some 0 else if n = 1 then some 1 else none,
+    ddir := fun n => if n = 0 then some 0 else if n = 1 then some 1 else none,
+    pending := [], fds := [] }
+
+def exOld : Bytes := [1, 2, 3]
+def exNew : Bytes := [4, 5, 6, 7]
+def exChunks : List Bytes := [[4, 5], [6, 7]]
+
+/-- the hypotheses of all C05 theorems are met by a concrete state with a stale temp file -/
+theorem exS_holds : DurablyHolds exS 0 (some exOld) := by
+  refine ⟨⟨?_, ?_, fun op hm => by cases hm⟩, ⟨⟨exOld, rfl, rfl⟩, ⟨exOld, rfl, rfl⟩, fun op hm => by cases hm⟩⟩
+  all_goals
+    intro n i h
+    simp only [exS] at h ⊢
+    split at h
+    · cases h; decide
+    · split at h
+      · cases h; decide
+      · cases h
+
+example : (1 : Name) ≠ 0 ∧ exChunks.flatten = exNew := by decide
+
+/-- both outcomes occur: cut after the rename (7 calls: remove, create, 2 writes, fsync, close, rename),
+    crash dropping every pending directory operation → old; crash keeping them → new -/
+example : load (crashImage (interpUpTo prog 0 1 exChunks noFaults 7 exS).1.fs [] (fun _ => [])) 0 = some exOld := by decide
+example : load (crashImage (interpUpTo prog 0 1 exChunks noFaults 7 exS).1.fs [true, true, true] (fun _ => [])) 0 = some exNew := by decide
+/-- cut in the middle of the writes, crash with garbage in the temp inode: path still old, temp torn -/
+example : load (crashImage (interpUpTo prog 0 1 exChunks noFaults 3 exS).1.fs [true, true] (fun _ => [0xEE, 0xEE])) 0 = some exOld ∧
+          load (crashImage (interpUpTo prog 0 1 exChunks noFaults 3 exS).1.fs [true, true] (fun _ => [0xEE, 0xEE])) 1 = some [0xEE, 0xEE] := by decide
+/-- a complete fault-free run returns nil, and the instance of `crash_old_or_new` / `durable_after_return` -/
+example : (interp prog 0 1 exChunks noFaults exS).err = false := by decide
+example (f : Faults) (k : Nat) (s' : State) (h : Crash (interpUpTo prog 0 1 exChunks f k exS).1.fs s') :
+    load s' 0 = some exOld ∨ load s' 0 = some exNew :=
+  crash_old_or_new (by decide) (by decide) f exS_holds k s' h
+example (s' : State) (h : Crash (interp prog 0 1 exChunks noFaults exS).fs s') : load s' 0 = some exNew :=
+  durable_after_return (by decide) (by decide) noFaults exS_holds (by decide) s' h
+/-- a failing directory sync (call 8) returns an error although `path` already shows the new content -/
+example : (interp prog 0 1 exChunks (singleFault 8 (some 0)) exS).err = true ∧
+          load (interp prog 0 1 exChunks (singleFault 8 (some 0)) exS).fs 0 = some exNew ∧
+          load (crashImage (interp prog 0 1 exChunks (singleFault 8 (some 0)) exS).fs [] (fun _ => [])) 0 = some exOld := by decide
+/-- a failing fsync of the temp file (call 4): error, path old, temp removed -/
+example : (interp prog 0 1 exChunks (singleFault 4 (some 0)) exS).err = true ∧
+          load (interp prog 0 1 exChunks (singleFault 4 (some 0)) exS).fs 0 = some exOld ∧
+          (interp prog 0 1 exChunks (singleFault 4 (some 0)) exS).fs.vdir 1 = none := by decide
+
+/-! ### Negative sanity: mutated programs violate the theorems (the model is not vacuous) -/
+
+/-- AtomicWriteFile WITHOUT `tempFile.Sync()` -/
+def noFsyncSteps : List Step :=
+  [ .call .removeTmp .retUnlessNotExist, .call .createExclTmp .ret, .defer [.closeTmp, .removeTmp],
+    .call .writeTmp .ret, .call .closeTmp .ret, .call .renameTmpToPath .ret,
+    .call .openDir .ret, .defer [.closeDir], .call .fsyncDir .ret ]
+
+/-- … with the rename BEFORE the fsync -/
+def renameFirstSteps : List Step :=
+  [ .call .removeTmp .retUnlessNotExist, .call .createExclTmp .ret, .defer [.closeTmp, .removeTmp],
+    .call .writeTmp .ret, .call .renameTmpToPath .ret, .call .fsyncTmp .ret, .call .closeTmp .ret,
+    .call .openDir .ret, .defer [.closeDir], .call .fsyncDir .ret ]
+
+/-- … WITHOUT the directory fsync -/
+def noDirSyncSteps : List Step :=
+  [ .call .removeTmp .retUnlessNotExist, .call .createExclTmp .ret, .defer [.closeTmp, .removeTmp],
+    .call .writeTmp .ret, .call .fsyncTmp .ret, .call .closeTmp .ret, .call .renameTmpToPath .ret ]
+
+/-- … WITHOUT the initial removal of a stale temp file (O_EXCL then fails for ever) -/
+def noRemoveSteps : List Step := prog.drop 1
+
+/-- without the temp-file fsync a returned-nil write can load as a torn file (neither old nor new) -/
+theorem neg_no_fsync :
+    ∃ (s s' : State) (path tmp : Name) (old new : Bytes) (chunks : List Bytes),
+      tmp ≠ path ∧ DurablyHolds s path (some old) ∧ chunks.flatten = new ∧
+      (interp noFsyncSteps path tmp chunks noFaults s).err = false ∧
+      Crash (interp noFsyncSteps path tmp chunks noFaults s).fs s' ∧
+      load s' path ≠ some old ∧ load s' path ≠ some new :=
+  ⟨exS, crashImage (interp noFsyncSteps 0 1 exChunks noFaults exS).fs [] (fun _ => [4, 0xEE]), 0, 1, exOld, exNew, exChunks,
+    by decide, exS_holds, by decide, by decide, crashImage_crash _ _ _, by decide, by decide⟩
+
+/-- with the rename before the fsync a crash right after the rename can expose a torn file -/
+theorem neg_rename_before_fsync :
+    ∃ (s s' : State) (path tmp : Name) (old new : Bytes) (chunks : List Bytes) (k : Nat),
+      tmp ≠ path ∧ DurablyHolds s path (some old) ∧ chunks.flatten = new ∧
+      Crash (interpUpTo renameFirstSteps path tmp chunks noFaults k s).1.fs s' ∧
+      load s' path ≠ some old ∧ load s' path ≠ some new :=
+  ⟨exS, crashImage (interpUpTo renameFirstSteps 0 1 exChunks noFaults 5 exS).1.fs [true, true, true] (fun _ => []), 0, 1,
+    exOld, exNew, exChunks, 5,
+    by decide, exS_holds, by decide, crashImage_crash _ _ _, by decide, by decide⟩
+
+/-- without the directory fsync a returned-nil write can be lost by a crash (`durable_after_return` fails) -/
+theorem neg_no_dir_fsync :
+    ∃ (s s' : State) (path tmp : Name) (old new : Bytes) (chunks : List Bytes),
+      tmp ≠ path ∧ DurablyHolds s path (some old) ∧ chunks.flatten = new ∧
+      (interp noDirSyncSteps path tmp chunks noFaults s).err = false ∧
+      Crash (interp noDirSyncSteps path tmp chunks noFaults s).fs s' ∧
+      load s' path ≠ some new :=
+  ⟨exS, crashImage (interp noDirSyncSteps 0 1 exChunks noFaults exS).fs [] (fun _ => []), 0, 1, exOld, exNew, exChunks,
+    by decide, exS_holds, by decide, by decide, crashImage_crash _ _ _, by decide⟩
+
+/-- without the initial remove a stale temp file makes even a fault-free run fail (`rerun_after_crash` fails) -/
+theorem neg_no_remove :
+    (interp noRemoveSteps 0 1 exChunks noFaults exS).err = true := by decide
+
 end Lungo.C05
